@@ -38,8 +38,9 @@ ProbeInfo(p, L, t) ==
   LET ps == Probes(p) IN
   [i \in 1..Len(ps) |->
      IF ~StepsOk(ps[i], L) THEN [script |-> ps[i], tags |-> {}, viol |-> FALSE]
-     ELSE LET sc == Concrete(ps[i], L) IN
-          [script |-> ps[i], tags |-> TagsOf(p, L, t, sc), viol |-> ~PropC16(t, sc, Run(p, L, t, sc))]]
+     ELSE LET sc == Concrete(ps[i], L)
+              e == Exec(p, L, t, sc) IN
+          [script |-> ps[i], tags |-> e.tags, viol |-> ~PropC16(t, sc, e.rs)]]
 
 Combos == UNION {{[kind |-> "combo", lc |-> lc, t |-> t, path |-> p, probes |-> ProbeInfo(p, LenOf(lc), t)] :
                     t \in {u \in Catalogue(LenOf(lc)) : Applicable(LenOf(lc), u)}, p \in {"seek", "seq"}} : lc \in LenClasses}
